@@ -18,7 +18,7 @@ CONSTANTS Rasters,      \* set of records [z |-> flattened zones, v |-> flattene
           Selections,   \* set of records [nd |-> nodata code | NONE, all |-> BOOLEAN, ids |-> sequence of ids]
           STATS,        \* statistic names checked at "done"
           TIES,         \* "stable": the stable argsort only; "any": every sorting permutation (ties free)
-          VARIANT,      \* {} = the code as it is; {"strip"} = with non-finite zones stripped everywhere
+          VARIANT,      \* {"dropneginf"} = the code today; {} = before fix 7d7d291; {"strip"} = alternative repair
           MUT           \* "none" | negative twins "lastcell" | "startsel" | "noinf" | "emptyzero" | "paintreq"
 
 VARIABLES inp, sel, pc, sortedIndices, valuesByZones, sortedZones, uz, i, count, zoneBreaks, start, slices
